@@ -161,6 +161,26 @@ fn befp_fields(p: &RawBefp) -> String {
     l
 }
 
+// raw field lines built from the VALUES' public accessors / fields, not through the `From<T> for RawT`
+// conversions under test (a broken conversion must not be able to hide by corrupting the generated input)
+fn merkle_word_of(m: &MerkleProof) -> String {
+    let aunts: Vec<Vec<u8>> = m.aunts.iter().map(|h| h.to_vec()).collect();
+    format!("mp={}/{}/{}/{}", m.index, m.total, hx(&m.leaf_hash[..]), hxl(&aunts))
+}
+fn rowproof_fields_of(p: &RowProof, start: u16, end: u16) -> String {
+    let roots: Vec<Vec<u8>> = p.row_roots().iter().map(nh).collect();
+    let mut l = format!("roots={} start={start} end={end} root=-", hxl(&roots));
+    for m in p.proofs() {
+        l.push(' ');
+        l.push_str(&merkle_word_of(m));
+    }
+    l
+}
+fn nmt_word_of(p: &NamespaceProof) -> String {
+    let nodes: Vec<Vec<u8>> = p.siblings().iter().map(nh).collect();
+    format!("sp={}/{}/{}/{}", p.start_idx() as i32, p.end_idx() as i32, hxl(&nodes), p.leaf().map(|l| hx(&nh(l))).unwrap_or_else(|| "-".into()))
+}
+
 fn set(line: &str, key: &str, val: &str) -> String {
     line.split(' ')
         .map(|w| match w.split_once('=') {
@@ -177,7 +197,7 @@ impl C46 {
         let dah = DataAvailabilityHeader::from_eds(&eds);
         let w16 = w as u16;
         // DAH
-        let rd = RawDah::from(dah.clone());
+        let rd = RawDah { row_roots: dah.row_roots().iter().map(nh).collect(), column_roots: dah.column_roots().iter().map(nh).collect() };
         let dl = format!("dah rows={} cols={}", hxl(&rd.row_roots), hxl(&rd.column_roots));
         out.op(dl.clone(), "dah/honest", true);
         let mut bad = rd.row_roots.clone();
@@ -223,14 +243,14 @@ impl C46 {
             let a = rng.below(w as u64) as u16;
             let b = rng.range(a as u64, (a as u64 + 3).min(w as u64 - 1)) as u16;
             let rp = dah.row_proof(a..=b).unwrap();
-            let raw = RawRowProof::from(rp.clone());
-            let l = format!("rowproof {}", rowproof_fields(&raw));
+            let l = format!("rowproof {}", rowproof_fields_of(&rp, a, b));
             out.op(l.clone(), "rowproof/honest", true);
             out.op(set(&l, "root", &hx(&rng.bytes(32))), "rowproof/root-field-set", true);
             out.op(set(&l, "start", "65536"), "rowproof/start-exceeds-u16", true);
             out.op(set(&l, "end", "4294967295"), "rowproof/end-u32-max", true);
-            for m in raw.proofs.iter().take(2) {
-                out.op(format!("merkle {}", merkle_word(m)), "merkle/honest", true);
+            for m in rp.proofs().iter().take(2) {
+                out.op(format!("merkle {}", merkle_word_of(m)), "merkle/honest", true);
+                let m = &merkle_unword(&merkle_word_of(m)[3..]).unwrap();
                 let mut n = m.clone();
                 n.index = -1;
                 out.op(format!("merkle {}", merkle_word(&n)), "merkle/negative-index", true);
@@ -264,8 +284,18 @@ impl C46 {
                 share_proofs: vec![np],
                 row_proof: dah.row_proof(row..=row).unwrap(),
             };
+            let l = {
+                let data: Vec<Vec<u8>> = sp.data.iter().map(|d| d.to_vec()).collect();
+                let mut l = format!("shareproof data={} nsid={} nsver={}", hxl(&data), hx(sp.namespace_id.id()), sp.namespace_id.version());
+                for q in &sp.share_proofs {
+                    l.push(' ');
+                    l.push_str(&nmt_word_of(q));
+                }
+                l.push_str(" hasrp=1 ");
+                l.push_str(&rowproof_fields_of(&sp.row_proof, row, row));
+                l
+            };
             let raw = RawShareProof::from(sp);
-            let l = format!("shareproof {}", shareproof_fields(&raw));
             out.op(l.clone(), "shareproof/honest", true);
             out.op(set(&l, "nsver", "256"), "shareproof/ns-version-256", true);
             out.op(set(&l, "nsver", "1"), "shareproof/ns-version-1", true);
